@@ -926,7 +926,7 @@ func (f *frame) setResult(x *ssa.Call, cur *State) {
 }
 
 func (e *Engine) inlinable(fn *ssa.Function, depth int, visiting map[*ssa.Function]bool) bool {
-	if len(fn.Blocks) == 0 || depth >= 4 || visiting[fn] {
+	if len(fn.Blocks) == 0 || depth >= 5 || visiting[fn] {
 		return false
 	}
 	if v, ok := e.inlCache[fn]; ok {
@@ -1416,7 +1416,11 @@ func (f *frame) builtin(x *ssa.Call, name string, cur *State) {
 	case "print", "println":
 		f.env[x] = tuv{}
 	case "recover":
-		f.env[x] = sv{vc.fresh("recovered", "Int")}
+		if vc.recoverNil {
+			f.env[x] = sv{"0"}
+		} else {
+			f.env[x] = sv{vc.fresh("recovered", "Int")}
+		}
 	case "min", "max":
 		a := vc.scalar(f.val(args[0]))
 		for _, o := range args[1:] {
